@@ -189,8 +189,17 @@ def readonly_C15(ctx, proof_ok):
                     for acc in (0, 1, 2):
                         for bits in range(16):
                             fl = acc | (0o2000 if bits & 1 else 0) | (0o100 if bits & 2 else 0) | (0o200 if bits & 4 else 0) | (0o1000 if bits & 8 else 0)
-                            for act in ("none", "write", "truncate", "sync"):
+                            acts = ("none", "write", "truncate", "sync") + (("readseek", "readat", "seekend") if bits in (0, 1, 8) else ())
+                            for act in acts:
                                 ro_calls.append({"op": "open", "h": "x", "name": tname, "flags": fl, "perm": 0o644, "obs": ["force", "tapesha", "rows"]})
+                                O = ["force", "tapesha", "rows"]
+                                if act == "readseek":    # advance, go back, read again, flush
+                                    ro_calls += [{"op": "read", "h": "x", "n": 5, "obs": O}, {"op": "seek", "h": "x", "whence": 0, "off": 2, "obs": O}, {"op": "read", "h": "x", "n": 3, "obs": O},
+                                                 {"op": "seek", "h": "x", "whence": 1, "off": -4, "obs": O}, {"op": "sync", "h": "x", "obs": O}]
+                                elif act == "readat":
+                                    ro_calls += [{"op": "readat", "h": "x", "n": 4, "off": 100, "obs": O}, {"op": "readat", "h": "x", "n": 4, "off": 0, "obs": O}]
+                                elif act == "seekend":
+                                    ro_calls += [{"op": "seek", "h": "x", "whence": 2, "off": 0, "obs": O}, {"op": "seek", "h": "x", "whence": 0, "off": 1, "obs": O}, {"op": "read", "h": "x", "n": 2, "obs": O}]
                                 if act == "write":
                                     ro_calls.append({"op": "write", "h": "x", "data": "aGVsbG8=", "obs": ["force", "tapesha", "rows"]})
                                 elif act == "truncate":
